@@ -466,6 +466,12 @@ func genSeqPlan(prop string, seed uint64, tier string) *Plan {
 				op.Del = append(op.Del, "some")
 			}
 			op.DelSeed = uint32(r.U64())
+			if prop == "C08" && r.Bool(1, 2) {
+				op.Kill = true
+				if r.Bool(1, 2) {
+					op.Del = nil // keep the (older) tree dump: newer hints are replayed on top of it
+				}
+			}
 		case "gc":
 			if len(c.Served) == 0 {
 				op.Kind = "get"
